@@ -58,6 +58,14 @@ def call_pool():
     P.append(('r3', 'real_match', ('lnk/c/f.txt', '**/f.txt', G.GLOBSTAR | G.REALPATH | G.FOLLOW, 'root_dir')))
     P.append(('r4', 'real_match', ('real/c/f.txt', '**/f.txt', G.GLOBSTAR | G.REALPATH, 'root_dir')))
     P.append(('r5', 'real_match', ('real/c/f.txt', 'real/**', G.GLOBSTAR | G.REALPATH, 'dir_fd')))
+    P.append(('x1', 'gl_match_ex', ('dir/', '*', 0, 'x*')))
+    P.append(('x2', 'gl_match_ex', ('dir/', '*', G.NODIR, 'x*')))
+    P.append(('x3', 'gl_match_ex', ('xdir', '*', G.NODIR, 'x*')))
+    P.append(('x4', 'gl_compile_rx_ex', ('*', G.NODIR, 'x*')))
+    P.append(('x5', 'gl_compile_rx_ex', ('*', 0, 'x*')))
+    P.append(('x6', 'gl_compile_rx_ex', ('*', G.DOTGLOB, ['x*'])))
+    P.append(('x7', 'fn_match_ex', ('.xa', '*', 0, 'x*')))
+    P.append(('x8', 'fn_match_ex', ('.xa', '.*', 0, '*a')))
     P.append(('g1', 'glob', ('**/f.txt', G.GLOBSTAR)))
     P.append(('g2', 'glob', ('*/c/*', 0)))
     return P
@@ -92,6 +100,13 @@ def do_call(kind, args, base):
         return [list(x) for x in F.translate(args[0], flags=args[1])]
     if kind == 'gl_translate':
         return [list(x) for x in G.translate(args[0], flags=args[1])]
+    if kind == 'gl_match_ex':
+        return G.globmatch(args[0], args[1], flags=args[2], exclude=args[3])
+    if kind == 'fn_match_ex':
+        return F.fnmatch(args[0], args[1], flags=args[2], exclude=args[3])
+    if kind == 'gl_compile_rx_ex':
+        m = G.compile(args[0], flags=args[1], exclude=args[2])._matcher
+        return [[p.pattern for p in m._include], [p.pattern for p in (m._exclude or ())]]
     if kind in ('fn_compile_rx', 'gl_compile_rx'):
         m = (F if kind[0] == 'f' else G).compile(args[0], flags=args[1])._matcher
         return [[p.pattern for p in m._include], [p.pattern for p in (m._exclude or ())]]
@@ -177,7 +192,7 @@ def history_worker(job):
             want = cold[(state, cid)]
             if got == want:
                 continue
-            if kind.endswith('translate') or kind.endswith('compile_rx'):
+            if kind.endswith('translate') or kind.endswith('compile_rx') or kind.endswith('compile_rx_ex'):
                 try:
                     same, w = same_language(got, want)
                 except (NotEncodable, Exception):  # noqa: BLE001
@@ -196,10 +211,11 @@ def algebra(ctx):
     from wcmatch import fnmatch as F, glob as G
     specs = []
     for mod, pats in ((F, ['*.txt', '*.TXT', 'a|b', ['a', 'b'], '+(a|b)', '!(a)', b'*.txt', '[a-c]', '.*', '*']),
-                      (G, ['**/*.txt', '*/x', '**', ['a/*', 'b/*'], '!(a)/x', b'**/*.txt', '*', '**/x'])):
+                      (G, ['**/*.txt', '*/x', '**', ['a/*', 'b/*'], '!(a)/x', b'**/*.txt', '*', '**/x', '/abs/*.txt', '/abs/data/x', ['/abs/a', '/abs/b'], b'/abs/*'])):
         fl = [0, mod.IGNORECASE, mod.DOTMATCH if mod is F else mod.DOTGLOB, mod.EXTMATCH if mod is F else mod.EXTGLOB]
         if mod is G:
-            fl += [G.GLOBSTAR, G.GLOBSTAR | G.REALPATH, G.GLOBSTAR | G.REALPATH | G.FOLLOW, G.GLOBSTAR | G.FOLLOW, G.GLOBSTARLONG | G.REALPATH | G.FOLLOW]
+            fl += [G.GLOBSTAR, G.GLOBSTAR | G.REALPATH, G.GLOBSTAR | G.REALPATH | G.FOLLOW, G.GLOBSTAR | G.FOLLOW, G.GLOBSTARLONG | G.REALPATH | G.FOLLOW, G.REALPATH,
+                   G.NODIR, G.NODIR | G.REALPATH, G.MATCHBASE, G.FOLLOW]
         for p in pats:
             for f in fl:
                 for ex in (None, 'x*' if not isinstance(p, bytes) and not (isinstance(p, list)) else None):
@@ -213,7 +229,8 @@ def algebra(ctx):
         except Exception as e:  # noqa: BLE001
             continue
         d = (mod.__name__, p, f, ex)
-        if not (m1 == m2 and not (m1 != m2) and hash(m1) == hash(m2)):
+        m3 = mod.compile(p, flags=f, exclude=ex)
+        if not (m1 == m2 == m3 and not (m1 != m2) and hash(m1) == hash(m2) == hash(m3) and len(m1._matcher) == len(m3._matcher)):
             bad.append(('equal arguments give unequal / differently hashed matchers', d))
         for name, clone in (('pickle', pickle.loads(pickle.dumps(m1))), ('copy', copy.copy(m1)), ('deepcopy', copy.deepcopy(m1))):
             if not (clone == m1 and hash(clone) == hash(m1)):
@@ -236,12 +253,14 @@ def algebra(ctx):
     # never equal when they accept different names: decided by z3 for pairs that compare equal / unequal
     q = 0
     rnd = random.Random(ctx.seed + 19)
-    pairs = [(objs[i], objs[j]) for i in range(len(objs)) for j in range(i + 1, len(objs))]
-    rnd.shuffle(pairs)
-    for (d1, a), (d2, b) in pairs[: (400 if ctx.quick else 4000)]:
-        if type(a) is not type(b):
-            continue
+    pairs = [(objs[i], objs[j]) for i in range(len(objs)) for j in range(i + 1, len(objs)) if type(objs[i][1]) is type(objs[j][1]) and objs[i][1] == objs[j][1]]
+    rnd.shuffle(pairs)           # every pair that compares equal is examined (there are few); the z3 language check is capped
+    for (d1, a), (d2, b) in pairs[: (600 if ctx.quick else 6000)]:
         if a == b:
+            x, y = a._matcher, b._matcher
+            if (x._real, x._path, x._follow) != (y._real, y._path, y._follow):
+                # the regexes alone do not tell: REALPATH / FOLLOW change which names are accepted on a real tree
+                bad.append((f'matchers compare equal but differ in real/path/follow state ({(x._real, x._path, x._follow)} vs {(y._real, y._path, y._follow)})', (d1, d2)))
             r1 = e1.matcher_regexes(a)
             r2 = e1.matcher_regexes(b)
             try:
